@@ -38,6 +38,28 @@ def processLine (line : String) : String :=
       else if exact && (run p (init p start) times).2 != got then
         s!"DIVERGE bucket in={tag} model={(run p (init p start) times).2}"
       else "ok"
+    | "ratecfg" =>
+      -- every request is charged to its route's own bucket if the route declares one, else to the one global bucket; the
+      -- sub-sequence charged to a bucket must be exactly what that bucket admits (times are on the exact lattice)
+      let start := int j "start"
+      let evs := arr j "events"
+      let badStatus := evs.find? (fun e => !(nat e "status" == 202 || nat e "status" == 429))
+      let unlimited := evs.find? (fun e => str e "limiter" == "none" && !bool e "got")
+      let bad := (arr j "limiters").find? (fun l =>
+        let p : Params := { num := nat l "num", den := nat l "den", burst := nat l "burst" }
+        let sub := evs.filter (fun e => str e "limiter" == str l "key")
+        let times := sub.map (fun e => int e "t"); let got := sub.map (fun e => bool e "got")
+        !boundOK p start times got 0)
+      let div := (arr j "limiters").find? (fun l =>
+        let p : Params := { num := nat l "num", den := nat l "den", burst := nat l "burst" }
+        let sub := evs.filter (fun e => str e "limiter" == str l "key")
+        (run p (init p start) (sub.map (fun e => int e "t"))).2 != sub.map (fun e => bool e "got"))
+      match badStatus, bad, unlimited, div with
+      | some e, _, _, _ => s!"DIVERGE ratecfg unexpected status {nat e "status"} in={tag}"
+      | _, some l, _, _ => s!"PROP C12 rate-window-bound-exceeded limiter={str l "key"} (requests of all routes charged to it counted together) in={tag}"
+      | _, _, some e, _ => s!"DIVERGE ratecfg unlimited route refused route={str e "route"} in={tag}"
+      | _, _, _, some l => s!"DIVERGE ratecfg limiter={str l "key"} admits differently from the bucket model in={tag}"
+      | _, _, _, _ => "ok"
     | "bodysize" =>
       let fits := nat j "len" ≤ nat j "maxBody"
       let status := nat j "status"; let enq := nat j "enqueued"
